@@ -536,3 +536,133 @@ pub fn case(thorough: bool) -> BoxedStrategy<Case> {
         })
         .boxed()
 }
+
+// ------------------------------------------------------------------ drop race
+
+/// The wrapper is dropped at (about) the moment a cancelled closure finishes: many
+/// rounds with a swept closure duration. A targeted stress for destruction paths that
+/// depend on who lets go of the value last; the oracle is the same thread identity check.
+#[derive(Clone, Debug, Serialize, Deserialize, PartialEq, Eq, Hash)]
+pub struct RaceCase {
+    pub rounds: u16,
+    pub multi_thread: bool,
+    pub spin_unit: u16,
+}
+
+pub fn race_case(thorough: bool) -> BoxedStrategy<RaceCase> {
+    let rounds = if thorough { 20000u16 } else { 3000u16 };
+    (Just(rounds), any::<bool>(), 5u16..200)
+        .prop_map(|(rounds, multi_thread, spin_unit)| RaceCase {
+            rounds,
+            multi_thread,
+            spin_unit,
+        })
+        .boxed()
+}
+
+pub fn run_race(case: &RaceCase) -> Verdict {
+    let mut v = Verdict {
+        violation: None,
+        inconclusive: None,
+        nontrivial: true,
+        labels: vec!["drop-race".into()],
+        trace: vec![],
+        step: 0,
+    };
+    let rt = if case.multi_thread {
+        tokio::runtime::Builder::new_multi_thread().worker_threads(2).max_blocking_threads(4).enable_all().build()
+    } else {
+        tokio::runtime::Builder::new_current_thread().max_blocking_threads(4).enable_all().build()
+    }
+    .expect("runtime");
+    let world = Arc::new(World {
+        w: Mutex::new(W::default()),
+        gates: vec![],
+    });
+    lock(&world.w).async_threads.insert(format!("{:?}", std::thread::current().id()));
+    let w2 = world.clone();
+    let rounds = case.rounds;
+    let unit = case.spin_unit as u64;
+    let body = async move {
+        for r in 0..rounds {
+            {
+                let mut w = lock(&w2.w);
+                w.ctor.clear();
+                w.dtor.clear();
+                w.closures.clear();
+            }
+            let wc = w2.clone();
+            let wrapper = match SyncWrapper::new(Runtime::Tokio1, move || Ok::<Probe, ()>(Probe { world: wc.clone() })).await {
+                Ok(w) => w,
+                Err(()) => return Some(("harness".to_string(), "constructor failed".to_string())),
+            };
+            let started = Arc::new(std::sync::atomic::AtomicBool::new(false));
+            let go = Arc::new(std::sync::atomic::AtomicBool::new(false));
+            let (st2, go2) = (started.clone(), go.clone());
+            // delay between "closure, finish now" and the drop of the wrapper, swept
+            let spins = (r as u64 % 64) * (1 + unit % 3);
+            {
+                // the interact() future is polled by hand once and then dropped (cancelled)
+                // while its closure is running
+                let mut fut = Box::pin(wrapper.interact(move |_p: &mut Probe| {
+                    st2.store(true, std::sync::atomic::Ordering::SeqCst);
+                    while !go2.load(std::sync::atomic::Ordering::Acquire) {
+                        std::hint::spin_loop();
+                    }
+                }));
+                let waker = std::task::Waker::from(vcore::sched::WakeFlag::new());
+                let mut cx = Context::from_waker(&waker);
+                let _ = fut.as_mut().poll(&mut cx);
+                let t0 = Instant::now();
+                while !started.load(std::sync::atomic::Ordering::SeqCst) {
+                    std::hint::spin_loop();
+                    if t0.elapsed() > Duration::from_secs(20) {
+                        go.store(true, std::sync::atomic::Ordering::Release);
+                        return Some(("inconclusive".into(), "closure did not start".into()));
+                    }
+                }
+                drop(fut);
+            }
+            go.store(true, std::sync::atomic::Ordering::Release);
+            for _ in 0..spins {
+                std::hint::spin_loop();
+            }
+            drop(wrapper);
+            let t0 = Instant::now();
+            loop {
+                if !lock(&w2.w).dtor.is_empty() {
+                    break;
+                }
+                tokio::task::yield_now().await;
+                if t0.elapsed() > Duration::from_secs(20) {
+                    return Some(("destructor-never-ran".into(), format!("round {}: the value was not destroyed within 20 s after the wrapper was dropped", r)));
+                }
+            }
+            let w = lock(&w2.w);
+            let (dt, _) = w.dtor[0];
+            if w.async_threads.contains(&format!("{:?}", dt)) {
+                return Some((
+                    "destroyed-on-async-thread".into(),
+                    format!("round {} (closure spins {}): the wrapped value was destroyed on thread {:?}, which awaited or dropped the wrapper", r, spins, dt),
+                ));
+            }
+            if w.dtor.len() != 1 {
+                return Some(("destructor-count".into(), format!("round {}: destructor ran {} times", r, w.dtor.len())));
+            }
+        }
+        None
+    };
+    let res = if case.multi_thread {
+        let h = rt.spawn(tracked(&world, body));
+        rt.block_on(tracked(&world, async move { h.await })).unwrap_or_else(|e| Some(("harness".into(), format!("{}", e))))
+    } else {
+        rt.block_on(tracked(&world, body))
+    };
+    rt.shutdown_timeout(Duration::from_secs(5));
+    match res {
+        Some((o, d)) if o == "inconclusive" => v.inconclusive = Some(d),
+        Some((o, d)) => v.violation = Some((o, d)),
+        None => {}
+    }
+    v
+}
